@@ -1,4 +1,5 @@
 import TorrentVerif.Proofs.Merkle
+import TorrentVerif.Proofs.CreatorsV2
 /-
   C02 — pieces root and piece layer of a file follow BEP 52 exactly (file-level part).
   Property theorems only; helper lemmas live in `Proofs/Merkle.lean`.
@@ -101,5 +102,207 @@ example : Spec.root toyH 2 1 [1,2,3,4,5,6,7,8,9]
     rw [pieceLayer_count toyH 2 1 1 _ (by decide)]; decide
   rw [hc, show lg 3 = 2 by decide] at h
   exact h
+
+end TorrentVerif.Props.C02
+
+/-! ### whole metafiles (creators of `Model/Creators.lean`)
+
+  `r` is the value handed to `pyben.dump` by any of the four v2-capable creators
+  (`Impl.WrittenV2Capable`: `TorrentFileV2`, `TorrentAssembler` v2, `TorrentFileHybrid`,
+  `TorrentAssembler` hybrid), for a content tree `t` (single file or directory) whose entry names
+  are non-empty, `/`-free and distinct among siblings, under any enumeration order. `pre` is any
+  path string for the directory the top-level names of the file tree live in (`treeBase`: the
+  content directory itself, or the parent directory of a single file `pre/name`); paths of
+  `Spec.allFiles` are full path strings below it. Piece length = `2^j · B`. -/
+namespace TorrentVerif.Props.C02
+open TorrentVerif TorrentVerif.Toy TorrentVerif.Ex.G7
+
+/-- The written file tree mirrors the content directory: its leaves (the entries keyed by the
+    empty string), read back with the path components leading to them, are exactly the regular
+    files of the content tree — each once, same relative path (nested dictionary by dictionary
+    as the directories are), same length. Empty directories contribute no leaf. -/
+theorem tree_mirrors_dir (o : CreateOpts) (H H1 : Bytes → Bytes) (B hs j : Nat)
+    (hB : 0 < B) (hpl : o.pieceLength = 2 ^ j * B) (hname : o.name ≠ [])
+    (enum : List (Bytes × Impl.FTree) → List (Bytes × Impl.FTree)) (henum : ∀ l, (enum l).Perm l)
+    (t : Node) (hwn : Spec.WellNamed t) (pre : Bytes) (r : BVal) (b : Bytes)
+    (hc : Impl.WrittenV2Capable o H H1 B hs enum t r b) :
+    ∃ tree, r.infoGet? K.fileTree = some tree ∧
+      ((Spec.treeLeaves [] tree).map (fun x => (x.1.foldl Listing.join pre, Spec.entryLength x.2))).Perm
+        ((Spec.allFiles (Spec.treeBase pre o.name t) t).map (fun x => (x.1, some x.2.length))) := by
+  obtain ⟨_, hft, _⟩ := v2cap_keys o H H1 B hs (2 ^ j) hB (Nat.two_pow_pos j) hpl enum t r b hc
+  refine ⟨_, hft, ?_⟩
+  have := (leaves_perm (Impl.fhV2 H B hs (2 ^ j)) enum henum t hwn o.name hname pre).map
+    (fun y : Bytes × BVal => (y.1, Spec.entryLength y.2))
+  simpa [List.map_map, Function.comp_def, entryLength_leafProps] using this
+
+/-- met by: the example tree (nested, unsorted, an empty file, an empty directory), all four
+    creators succeed on it; shown for two of them -/
+example : (∃ r b, Impl.createV2Class exOpts toyH 2 1 List.reverse exTree = some (r, b) ∧
+    ∃ tree, r.infoGet? K.fileTree = some tree ∧
+      ((Spec.treeLeaves [] tree).map (fun x => (x.1.foldl Listing.join [100], Spec.entryLength x.2))).Perm
+        ((Spec.allFiles [100] exTree).map (fun x => (x.1, some x.2.length)))) ∧
+    (∃ r b, Impl.createAsm true exOpts toyH toyH20 2 1 id exFile = some (r, b) ∧
+    ∃ tree, r.infoGet? K.fileTree = some tree ∧
+      ((Spec.treeLeaves [] tree).map (fun x => (x.1.foldl Listing.join [100], Spec.entryLength x.2))).Perm
+        ((Spec.allFiles (Listing.join [100] [114]) exFile).map (fun x => (x.1, some x.2.length)))) := by
+  constructor
+  · obtain ⟨r, b, h⟩ := createV2Class_some exOpts toyH 2 1 List.reverse exTree
+    exact ⟨r, b, h, tree_mirrors_dir exOpts toyH toyH1 2 1 1 (by decide) rfl (by decide)
+      List.reverse List.reverse_perm exTree exTree_wellNamed [100] r b (Or.inl h)⟩
+  · have h20 : ∀ x, (toyH20 x).length = 20 := by intro x; simp [toyH20]
+    obtain ⟨r, b, h⟩ := createAsm_true_some exOpts toyH toyH20 2 1 2 (by decide) (by decide) rfl h20 id exFile
+    exact ⟨r, b, h, tree_mirrors_dir exOpts toyH toyH20 2 1 1 (by decide) rfl (by decide)
+      id (fun _ => .refl _) exFile trivial [100] r b (Or.inr (Or.inr (Or.inr ⟨h20, h⟩)))⟩
+
+/-- A leaf of length 0 is exactly `{"length": 0}`: an empty file carries no pieces root (and no
+    other key). -/
+theorem empty_has_no_root (o : CreateOpts) (H H1 : Bytes → Bytes) (B hs j : Nat)
+    (hB : 0 < B) (hpl : o.pieceLength = 2 ^ j * B) (hname : o.name ≠ [])
+    (enum : List (Bytes × Impl.FTree) → List (Bytes × Impl.FTree)) (henum : ∀ l, (enum l).Perm l)
+    (t : Node) (hwn : Spec.WellNamed t) (r : BVal) (b : Bytes)
+    (hc : Impl.WrittenV2Capable o H H1 B hs enum t r b) :
+    ∃ tree, r.infoGet? K.fileTree = some tree ∧
+      ∀ x ∈ Spec.treeLeaves [] tree, Spec.entryLength x.2 = some 0 →
+        x.2 = .dict [(K.length, .int 0)] ∧ x.2.get? K.piecesRoot = none := by
+  obtain ⟨_, hft, _⟩ := v2cap_keys o H H1 B hs (2 ^ j) hB (Nat.two_pow_pos j) hpl enum t r b hc
+  refine ⟨_, hft, ?_⟩
+  intro x hx hlen
+  have hp := leaves_perm (Impl.fhV2 H B hs (2 ^ j)) enum henum t hwn o.name hname []
+  have hm := hp.subset (List.mem_map_of_mem (f := fun x => (x.1.foldl Listing.join [], x.2)) hx)
+  obtain ⟨y, _, hy⟩ := List.mem_map.mp hm
+  have e : x.2 = leafProps (Impl.fhV2 H B hs (2 ^ j)) y.2 := by
+    have := congrArg Prod.snd hy; simpa using this.symm
+  rw [e, entryLength_leafProps] at hlen
+  have h0 : y.2.length = 0 := by simpa using hlen
+  rw [e]
+  simp [leafProps, h0, BVal.get?, dictGet, K.length, K.piecesRoot]
+
+example : ∃ r b, Impl.createHybridClass exOpts toyH toyH1 2 1 id exTree = some (r, b) ∧
+    ∃ tree, r.infoGet? K.fileTree = some tree ∧
+      ∀ x ∈ Spec.treeLeaves [] tree, Spec.entryLength x.2 = some 0 →
+        x.2 = .dict [(K.length, .int 0)] ∧ x.2.get? K.piecesRoot = none := by
+  obtain ⟨r, b, h⟩ := createHybridClass_some exOpts toyH toyH1 2 1 2 (by decide) (by decide) rfl id exTree
+  exact ⟨r, b, h, empty_has_no_root exOpts toyH toyH1 2 1 1 (by decide) rfl (by decide)
+    id (fun _ => .refl _) exTree exTree_wellNamed r b (Or.inr (Or.inr (Or.inl h)))⟩
+
+/-- Every leaf is exactly what BEP 52 prescribes for its file: `{"length": n, "pieces root":
+    root}` with `root` the BEP 52 merkle root (`Spec.root`) of the file's bytes for a non-empty
+    file, `{"length": 0}` for an empty one — and there is one such leaf per file of the content
+    tree, at that file's path. -/
+theorem nonempty_root_is_spec (o : CreateOpts) (H H1 : Bytes → Bytes) (B hs j : Nat)
+    (hB : 0 < B) (hpl : o.pieceLength = 2 ^ j * B) (hname : o.name ≠ [])
+    (enum : List (Bytes × Impl.FTree) → List (Bytes × Impl.FTree)) (henum : ∀ l, (enum l).Perm l)
+    (t : Node) (hwn : Spec.WellNamed t) (pre : Bytes) (r : BVal) (b : Bytes)
+    (hc : Impl.WrittenV2Capable o H H1 B hs enum t r b) :
+    ∃ tree, r.infoGet? K.fileTree = some tree ∧
+      ((Spec.treeLeaves [] tree).map (fun x => (x.1.foldl Listing.join pre, x.2))).Perm
+        ((Spec.allFiles (Spec.treeBase pre o.name t) t).map (fun x => (x.1,
+          if x.2.length = 0 then BVal.dict [(K.length, .int 0)]
+          else .dict [(K.length, .int x.2.length), (K.piecesRoot, .str (Spec.root H B hs x.2))]))) := by
+  obtain ⟨_, hft, _⟩ := v2cap_keys o H H1 B hs (2 ^ j) hB (Nat.two_pow_pos j) hpl enum t r b hc
+  refine ⟨_, hft, ?_⟩
+  have hp := leaves_perm (Impl.fhV2 H B hs (2 ^ j)) enum henum t hwn o.name hname pre
+  have e : (fun x : Bytes × Bytes => (x.1, leafProps (Impl.fhV2 H B hs (2 ^ j)) x.2))
+      = (fun x => (x.1, if x.2.length = 0 then BVal.dict [(K.length, .int 0)]
+          else .dict [(K.length, .int x.2.length), (K.piecesRoot, .str (Spec.root H B hs x.2))])) := by
+    funext x; rw [leafProps_spec H B hs j hB]
+  rw [e] at hp
+  exact hp
+
+example : ∃ r b, Impl.createAsm false exOpts toyH toyH1 2 1 id exTree = some (r, b) ∧
+    ∃ tree, r.infoGet? K.fileTree = some tree ∧
+      ((Spec.treeLeaves [] tree).map (fun x => (x.1.foldl Listing.join [100], x.2))).Perm
+        ((Spec.allFiles [100] exTree).map (fun x => (x.1,
+          if x.2.length = 0 then BVal.dict [(K.length, .int 0)]
+          else .dict [(K.length, .int x.2.length), (K.piecesRoot, .str (Spec.root toyH 2 1 x.2))]))) := by
+  obtain ⟨r, b, h⟩ := createAsm_false_some exOpts toyH toyH1 2 1 2 (by decide) (by decide) rfl id exTree
+  exact ⟨r, b, h, nonempty_root_is_spec exOpts toyH toyH1 2 1 1 (by decide) rfl (by decide)
+    id (fun _ => .refl _) exTree exTree_wellNamed [100] r b (Or.inr (Or.inl h))⟩
+
+/-- The written `piece layers` dictionary has its keys strictly ascending and contains exactly
+    one entry per pieces root of a file longer than the piece length, mapped to the
+    concatenated BEP 52 piece layer of that file (`Spec.pieceLayer`), and nothing else: no entry
+    for files of at most one piece, none for empty files. Two files with equal roots share one
+    entry (dictionary semantics); the hypothesis `hcoll` says that files with equal roots have
+    equal piece layers, which holds unless the hash collides. -/
+theorem piece_layers_exact (o : CreateOpts) (H H1 : Bytes → Bytes) (B hs j : Nat)
+    (hB : 0 < B) (hpl : o.pieceLength = 2 ^ j * B)
+    (enum : List (Bytes × Impl.FTree) → List (Bytes × Impl.FTree)) (henum : ∀ l, (enum l).Perm l)
+    (t : Node) (pre : Bytes) (r : BVal) (b : Bytes)
+    (hcoll : ∀ x ∈ Spec.allFiles pre t, ∀ y ∈ Spec.allFiles pre t,
+      o.pieceLength < x.2.length → o.pieceLength < y.2.length →
+      Spec.root H B hs x.2 = Spec.root H B hs y.2 →
+      (Spec.pieceLayer H B hs j x.2).flatten = (Spec.pieceLayer H B hs j y.2).flatten)
+    (hc : Impl.WrittenV2Capable o H H1 B hs enum t r b) :
+    ∃ L, r.get? K.pieceLayers = some (.dict L) ∧ strictAsc (keys L) = true ∧
+      ∀ k v, dictGet L k = some v ↔
+        ∃ x ∈ Spec.allFiles pre t, o.pieceLength < x.2.length ∧ k = Spec.root H B hs x.2 ∧
+          v = .str (Spec.pieceLayer H B hs j x.2).flatten := by
+  obtain ⟨_, _, hly, _⟩ := v2cap_keys o H H1 B hs (2 ^ j) hB (Nat.two_pow_pos j) hpl enum t r b hc
+  refine ⟨_, hly, strictAsc_sortDict _ (layersDict_good _).nodup, ?_⟩
+  intro k v
+  rw [dictGet_sortDict']
+  -- the assignments, in terms of the specification
+  have hitem : ∀ a, a ∈ Impl.layerItems (Impl.fhV2 H B hs (2 ^ j)) o.pieceLength
+        (Impl.ftreeFiles [] (Impl.traverse enum t)) ↔
+      ∃ y ∈ Impl.ftreeFiles [] (Impl.traverse enum t), o.pieceLength < y.2.length ∧
+        a = (Spec.root H B hs y.2, (Spec.pieceLayer H B hs j y.2).flatten) := by
+    intro a
+    unfold Impl.layerItems
+    rw [List.mem_filterMap]
+    constructor
+    · intro ⟨y, hy, he⟩
+      by_cases hlt : o.pieceLength < y.2.length
+      · simp only [hlt, if_true, Option.some.injEq] at he
+        have hd : y.2 ≠ [] := by intro e; rw [e] at hlt; simp at hlt
+        rw [fhV2_root_spec H B hs j hB y.2 hd,
+          fhV2_layer_spec H B hs j hB y.2 (by rw [← hpl]; exact hlt)] at he
+        exact ⟨y, hy, hlt, he.symm⟩
+      · simp [hlt] at he
+    · intro ⟨y, hy, hlt, he⟩
+      have hd : y.2 ≠ [] := by intro e; rw [e] at hlt; simp at hlt
+      refine ⟨y, hy, ?_⟩
+      simp only [hlt, if_true]
+      rw [fhV2_root_spec H B hs j hB y.2 hd,
+        fhV2_layer_spec H B hs j hB y.2 (by rw [← hpl]; exact hlt), he]
+  have hdata := fun P => allFiles_data_iff enum henum pre t P
+  have hcons : ∀ a ∈ Impl.layerItems (Impl.fhV2 H B hs (2 ^ j)) o.pieceLength
+        (Impl.ftreeFiles [] (Impl.traverse enum t)),
+      ∀ c ∈ Impl.layerItems (Impl.fhV2 H B hs (2 ^ j)) o.pieceLength
+        (Impl.ftreeFiles [] (Impl.traverse enum t)), a.1 = c.1 → a.2 = c.2 := by
+    intro a ha c hc' hac
+    obtain ⟨y, hy, hyl, rfl⟩ := (hitem a).mp ha
+    obtain ⟨z, hz, hzl, rfl⟩ := (hitem c).mp hc'
+    have hp := ftreeFiles_traverse_perm enum henum pre t []
+    simp only [List.foldl_nil] at hp
+    exact hcoll _ (hp.subset (List.mem_map_of_mem hy)) _ (hp.subset (List.mem_map_of_mem hz))
+      hyl hzl hac
+  rw [dictGet_layersDict _ hcons k v]
+  rw [hdata (fun d => o.pieceLength < d.length ∧ k = Spec.root H B hs d ∧
+    v = .str (Spec.pieceLayer H B hs j d).flatten)]
+  constructor
+  · intro ⟨a, ha, hk, hv⟩
+    obtain ⟨y, hy, hyl, rfl⟩ := (hitem a).mp ha
+    exact ⟨y, hy, hyl, hk.symm, hv⟩
+  · intro ⟨y, hy, hyl, hk, hv⟩
+    exact ⟨_, (hitem _).mpr ⟨y, hy, hyl, rfl⟩, hk.symm, hv⟩
+
+/-- met by: the example tree — only `b` (9 bytes, piece length 4) is longer than a piece, so no
+    two listed files can collide -/
+example : ∃ r b, Impl.createV2Class exOpts toyH 2 1 id exTree = some (r, b) ∧
+    ∃ L, r.get? K.pieceLayers = some (.dict L) ∧ strictAsc (keys L) = true ∧
+      ∀ k v, dictGet L k = some v ↔
+        ∃ x ∈ Spec.allFiles [100] exTree, exOpts.pieceLength < x.2.length ∧
+          k = Spec.root toyH 2 1 x.2 ∧ v = .str (Spec.pieceLayer toyH 2 1 1 x.2).flatten := by
+  obtain ⟨r, b, h⟩ := createV2Class_some exOpts toyH 2 1 id exTree
+  refine ⟨r, b, h, piece_layers_exact exOpts toyH toyH1 2 1 1 (by decide) rfl id (fun _ => .refl _)
+    exTree [100] r b ?_ (Or.inl h)⟩
+  intro x hx y hy hxl hyl _
+  simp only [exTree, Spec.allFiles, Spec.allFilesList, List.append_nil, List.mem_cons, List.mem_append,
+    List.not_mem_nil, or_false] at hx hy
+  simp only [exOpts] at hxl hyl
+  rcases hx with rfl | (rfl | rfl) | rfl <;> simp at hxl
+  rcases hy with rfl | (rfl | rfl) | rfl <;> simp at hyl
+  rfl
 
 end TorrentVerif.Props.C02
